@@ -66,6 +66,7 @@ func (o *Ordering) Validate() error {
 	return validation.ValidateStruct(o,
 		validation.Field(&o.Code),
 		validation.Field(&o.Identities),
+		validation.Field(&o.Period),
 		validation.Field(&o.Cost),
 		validation.Field(&o.Projects),
 		validation.Field(&o.Contracts),
